@@ -45,7 +45,8 @@ ename(int rv)
 // lost.  Nothing can move any more in that state, so the wait is only a
 // safety margin; once one loss has been reported in this process the
 // following waits are cut short (the verdict no longer depends on them).
-static bool loss_seen;
+static bool        loss_seen;
+static _Atomic int long_block_seen; // a 10 s send timeout has happened: use short ones from now on
 static uint64_t
 stuck_ns(void)
 {
@@ -426,7 +427,7 @@ sender_main(void *arg)
 				rv = nng_sendmsg(sock, m, NNG_FLAG_NONBLOCK);
 				break;
 			default:
-				nng_aio_set_timeout(aio, s->style == SS_AIO_SHORT ? (nng_duration) vf_range(&s->rng, 1, 3) : 10000);
+				nng_aio_set_timeout(aio, s->style == SS_AIO_SHORT ? (nng_duration) vf_range(&s->rng, 1, 3) : atomic_load(&long_block_seen) ? 300 : 10000);
 				nng_aio_set_msg(aio, m);
 				nng_socket_send(sock, aio);
 				nng_aio_wait(aio);
@@ -445,6 +446,12 @@ sender_main(void *arg)
 			if (rv == 0) break;
 			if (rv == NNG_EAGAIN || rv == NNG_ETIMEDOUT) {
 				if (rv == NNG_EAGAIN) s->eagain++; else s->timedout++;
+				if (rv == NNG_ETIMEDOUT && s->style != SS_AIO_SHORT && vf_now_ns() - t0 > 9ull * 1000000000ull && !atomic_exchange(&long_block_seen, 1)) {
+					// blocking for 10 s is allowed by the property, but
+					// it need not be waited out again and again
+					vf_stat("send_blocked_10s", 1);
+				}
+				if (atomic_load(&long_block_seen) && s->style == SS_BLOCK) nng_socket_set_ms(sock, NNG_OPT_SENDTIMEO, 300);
 				// no pullers for a long time is not this property's
 				// business: give the message up (still owned by us)
 				if (vf_now_ns() - t0 > 30ull * 1000000000ull) {
@@ -875,7 +882,7 @@ run_flow_case(long idx)
 	for (int i = 0; i < C.npush; i++) {
 		if ((rv = nng_push0_open(&C.push[i])) != 0) vf_harness_fail("push open: %s", nng_strerror(rv));
 		sock_common(C.push[i]);
-		nng_socket_set_ms(C.push[i], NNG_OPT_SENDTIMEO, 10000);
+		nng_socket_set_ms(C.push[i], NNG_OPT_SENDTIMEO, atomic_load(&long_block_seen) ? 300 : 10000);
 		C.depth[i] = (int) vf_range(r, 0, 8);
 		if (C.depth[i] || vf_chance(r, 1, 2)) {
 			if ((rv = nng_socket_set_int(C.push[i], NNG_OPT_SENDBUF, C.depth[i])) != 0) vf_harness_fail("sendbuf: %s", nng_strerror(rv));
